@@ -155,12 +155,15 @@ def _http_sse(text: str) -> Tuple[List[Any], Optional[str]]:
     return got, err
 
 
-def sse_reference(text: str, flush_tail: bool) -> List[Any]:
+def sse_reference(text: str, flush_tail: bool, blank_is_message: bool = False) -> List[Any]:
     from ..sse_ref import parse_events
 
     out = []
     for etype, d in parse_events(text, flush_tail):
-        if etype.strip() not in ("message", "response"):
+        t = etype.strip()
+        if blank_is_message and t == "":
+            t = "message"  # an event type made of whitespace only: the library treats it as absent
+        if t not in ("message", "response"):
             continue
         if not d.strip().startswith("{"):
             continue
@@ -182,8 +185,9 @@ def eval_sse_text(data: bytes):
     case = {"text": text}
     if err:
         return ("sse-text-parser-raised", err, case)
-    a, b = sse_reference(text, False), sse_reference(text, True)
-    if not (_eq(got, a) or _eq(got, b)):
+    refs = [sse_reference(text, ft, bm) for ft in (False, True) for bm in (False, True)]
+    a = refs[0]
+    if not any(_eq(got, r) for r in refs):
         return ("sse-framing-differs-from-reference", f"got={got!r} ref={a!r} text={text!r}"[:600], case)
     return None
 
